@@ -460,7 +460,15 @@ func (p *prop) runLayout(c core.Case, w *core.Worker, res *core.Result) {
 		return
 	}
 	res.Inc("loads")
-	for _, e := range g.out {
+	// two passes: in layout order, then again in reverse order - what an accessor answers must not depend on what was
+	// asked before
+	order := make([]*expect, 0, 2*len(g.out))
+	order = append(order, g.out...)
+	for i := len(g.out) - 1; i >= 0; i-- {
+		order = append(order, g.out[i])
+	}
+	for oi, e := range order {
+		second := oi >= len(g.out)
 		pkg := u.Package("example.com/c12/" + e.Pkg)
 		if pkg == nil {
 			res.Inconclusive = append(res.Inconclusive, "package not loaded: "+e.Pkg)
@@ -482,12 +490,16 @@ func (p *prop) runLayout(c core.Case, w *core.Worker, res *core.Result) {
 			res.Inconclusive = append(res.Inconclusive, "object not found: "+e.Name)
 			continue
 		}
-		res.Evals++
-		nontriv := strings.Contains(e.Shape, "prev=line") || strings.Contains(e.Shape, "prev=block") || strings.Contains(e.Shape, "tags") || strings.Contains(e.Shape, "detached")
-		if nontriv {
-			res.NonTrivial(e.Shape)
+		if !second {
+			res.Evals++
+			nontriv := strings.Contains(e.Shape, "prev=line") || strings.Contains(e.Shape, "prev=block") || strings.Contains(e.Shape, "tags") || strings.Contains(e.Shape, "detached")
+			if nontriv {
+				res.NonTrivial(e.Shape)
+			}
+			res.Inc("decl_" + e.Kind)
+		} else {
+			res.Inc("second_pass_queries")
 		}
-		res.Inc("decl_" + e.Kind)
 		tags, doc := pkg.Doc(obj.Pos())
 		tr := pkg.Comment(obj.Pos())
 		ctx := func() string {
